@@ -121,6 +121,99 @@ def classify_entry(e, reg):
     return 'plugin', ''
 
 
+# ------------------------------------------------------------------------------------------
+# FactoryVal: the value grammar on every constructor keyword an input file can set
+# ------------------------------------------------------------------------------------------
+# strings of the grammar that str.lower() changes (spec: LowerTab), see spec/FactoryVal.tla
+GRAMMAR_WORDS = ['TRUE', 'true', 'yes', 'Yeah', 'yup', 'certainly', 'uh-huh', 'False', 'NO', 'nope', 'no-way', 'hell-no',
+                 'He', 'N2', 'H2O', 'CH4', 'H2-He', 'He-He', '1E3', '1e-2', '1e-4', '-1.5', '.5', '5.', '+2', '0']
+VAL_KINDS = ('temperature', 'pressure', 'chemistry', 'gas', 'planet', 'star', 'model', 'contribution', 'optimizer')
+# constructor keywords that take objects the parser builds itself (not values of the file)
+OBJECT_PARAMS = {'planet', 'star', 'pressure_profile', 'temperature_profile', 'chemistry', 'observation', 'observed',
+                 'model', 'molecule_name', 'binner', 'name'}
+# list-valued keywords whose signature does not show it (default None / no default, no docstring entry)
+EXTRA_LIST = {('ArrayPressureProfile', 'array'), ('ChemistryFile', 'gases'), ('CIAContribution', 'cia_pairs')}
+# values a class needs in every file (no usable default)
+VAL_FIXED = {'ChemistryFile': [('filename', dict(k='scalar', toks=['@P1'])), ('gases', dict(k='list', toks=['H2', 'He', 'H2O']))],
+             'TemperatureFile': [('filename', dict(k='scalar', toks=['@P1']))],
+             'ArrayPressureProfile': [('array', dict(k='list', toks=['1e3', '1250', '0.5']))]}
+# the custom class of the value grammar (harness-written python_file, see CUSTOM_VALUES)
+CUSTOM_VALUE_CLASS = dict(kind='temperature', name='VerifValues', sel='custom', by='value', custom=True, scalars=True,
+                          params=[('v_any', 'any', 'signature'), ('v_list', 'list', 'signature'), ('v_num', 'float', 'signature')], fixed=[])
+
+
+def _sig_type(klass, name):
+    """Type of a constructor keyword as far as the code shows it: its default, else its docstring."""
+    import numpy as np
+    p = inspect.signature(klass.__init__).parameters[name]
+    d = p.default
+    doc = (klass.__doc__ or '') + '\n' + (klass.__init__.__doc__ or '')
+    if (klass.__name__, name) in EXTRA_LIST or isinstance(d, (list, tuple, np.ndarray)) or \
+            re.search(r'^\s*%s\s*:[^\n]*\b(list|array|array_like)\b' % re.escape(name), doc, re.M):
+        return 'list'
+    if isinstance(d, bool):
+        return 'bool'
+    if isinstance(d, (int, float)):
+        return 'float'
+    if isinstance(d, str):
+        return 'str'
+    return 'opt'
+
+
+def val_classes(reg, entries, rot=0):
+    """One record per built-in class an input file can select, with the type of every value keyword
+    (documented type first) -- the domain of spec/FactoryVal.tla."""
+    from taurex.parameter.classfactory import ClassFactory
+    cf = ClassFactory()
+    live = {(kind, k.__name__): k for kind in VAL_KINDS for k in getattr(cf, KIND_ATTR[kind])}
+    out, per_kind = [], {}
+    for c in reg:
+        if c['kind'] not in VAL_KINDS or not c['kw'] or c['varkw'] or (c['kind'], c['name']) not in live:
+            continue
+        klass = live[(c['kind'], c['name'])]
+        doc_typ, doc_sel = {}, []
+        for e in entries:
+            if e['kind'] != c['kind'] or e['status'] != 'builtin':
+                continue
+            hit = [s for s in e['sels'] if (s.lower() if e['by'] == 'value' else s) in c['kw']]
+            if hit:
+                doc_sel += hit
+                for k in e['keys']:
+                    doc_typ[k['name']] = k['typ']
+        sel = sorted(doc_sel)[0] if doc_sel else sorted(c['kw'])[0]
+        params = []
+        for p in c['params']:
+            if p in OBJECT_PARAMS:
+                continue
+            if p in doc_typ:
+                params.append((p, doc_typ[p], 'doc'))
+            else:
+                params.append((p, _sig_type(klass, p), 'signature'))
+        if not params:
+            continue
+        rec = dict(kind=c['kind'], name=c['name'], sel=sel, by='subsection' if c['kind'] == 'contribution' else 'value',
+                   custom=False, scalars=False, params=params, fixed=VAL_FIXED.get(c['name'], []))
+        out.append(rec)
+        per_kind.setdefault(c['kind'], []).append(rec)
+    for kind, recs in per_kind.items():         # quick tier: the scalar grammar on one class per kind, rotated by the seed
+        recs[rot % len(recs)]['scalars'] = True
+    out.append(dict(CUSTOM_VALUE_CLASS))
+    return out
+
+
+def gen_val_constants(reg, entries, rot=0):
+    rows = []
+    for c in val_classes(reg, entries, rot):
+        rows.append('[kind |-> %s, name |-> %s, sel |-> %s, by |-> %s, custom |-> %s, scalars |-> %s, params |-> %s, fixed |-> %s]' % (
+            tla_str(c['kind']), tla_str(c['name']), tla_str(c['sel']), tla_str(c['by']), 'TRUE' if c['custom'] else 'FALSE',
+            'TRUE' if c['scalars'] else 'FALSE',
+            tla_set('[name |-> %s, typ |-> %s, src |-> %s]' % (tla_str(n), tla_str(t), tla_str(s)) for n, t, s in c['params']),
+            tla_set('[name |-> %s, raw |-> [k |-> %s, toks |-> <<%s>>]]' % (tla_str(n), tla_str(r['k']), ', '.join(tla_str(t) for t in r['toks']))
+                    for n, r in c['fixed'])))
+    return ['\\* FactoryVal: every class an input file can select, its value keywords and their types (documented, else signature)',
+            'ValClasses == {\n  ' + ',\n  '.join(rows) + '}']
+
+
 def tla_str(s):
     return '"' + s.replace('\\', '\\\\').replace('"', '\\"') + '"'
 
@@ -155,7 +248,7 @@ def doc_entries(doc, reg):
     return out
 
 
-def gen_reg_module(reg, mix, entries, doc, waived=(), waived_keys=(), extra=None):
+def gen_reg_module(reg, mix, entries, doc, waived=(), waived_keys=(), extra=None, val_rot=0):
     L = ['---------------------------- MODULE FactoryReg ----------------------------',
          '\\* GENERATED by harness/fx_factory.py from the live taurex ClassFactory (inspect.signature) and',
          '\\* harness/data/documented_keywords.json (extracted from doc/source/user/taurex/*.rst).  Do not edit.',
@@ -181,7 +274,7 @@ def gen_reg_module(reg, mix, entries, doc, waived=(), waived_keys=(), extra=None
     for s in strings:
         for v in (s, caps[s], s + '_zz', caps[s] + '_zz'):
             low[v] = v.lower()
-    for w in ['True', 'no', 'K', 'abc', 'H2', '@P1', '@P2', '0.25', '0.5', '1250', '3', '12', '1', '2.5e-1', '1e3']:
+    for w in ['True', 'no', 'K', 'abc', 'H2', '@P1', '@P2', '0.25', '0.5', '1250', '3', '12', '1', '2.5e-1', '1e3'] + GRAMMAR_WORDS:
         low[w] = w.lower()
     L.append('LowerTab == ' + ' @@ '.join('(%s :> %s)' % (tla_str(k), tla_str(v)) for k, v in sorted(low.items())))
     L.append('CapTab == ' + ' @@ '.join('(%s :> %s)' % (tla_str(k), tla_str(v)) for k, v in sorted(caps.items())))
@@ -196,6 +289,7 @@ def gen_reg_module(reg, mix, entries, doc, waived=(), waived_keys=(), extra=None
     L.append('MixinOf == ' + (' @@ '.join(mixof) if mixof else '<<>>'))
     L.append('Waived == ' + tla_set(tla_str(w) for w in sorted(waived)))
     L.append('WaivedKeys == ' + tla_set(tla_str(w) for w in sorted(waived_keys)))
+    L += gen_val_constants(reg, entries, rot=val_rot)
     if extra is None:       # constants of FactoryMix (composite selectors with several mixins)
         from . import fx_mixins
         extra = fx_mixins.gen_mix_constants(mix, fx_mixins.choose_bases(reg, entries))
@@ -282,6 +376,89 @@ class MyPlanet(Planet):
 '''
 
 
+CUSTOM_VALUES = '''
+from taurex.temperature import TemperatureProfile
+import numpy as np
+class VerifValues(TemperatureProfile):
+    """Records exactly what the input file handed to its constructor (spec/FactoryVal.tla)."""
+    def __init__(self, v_any=None, v_list=[], v_num=0.0):
+        super().__init__(self.__class__.__name__)
+        self._v_any = v_any
+        self._v_list = v_list
+        self._v_num = v_num
+    @property
+    def profile(self):
+        return np.full(self.nlayers, 1000.0)
+'''
+
+
+def snapshot(o, depth=0, seen=None):
+    """Structural image of an object (attribute tree; exact numbers with their Python type), used to
+    compare the object built from an input file with the one built through the library."""
+    import numpy as np
+    if seen is None:
+        seen = set()
+    if o is None or isinstance(o, (bool, str)):
+        return o
+    if isinstance(o, (np.bool_,)):
+        return bool(o)
+    if isinstance(o, (int, float, np.integer, np.floating)):
+        f = float(o)
+        return ['num', type(o).__name__, 'nan' if f != f else f]
+    if isinstance(o, np.ndarray):
+        if o.dtype == object or o.size > 400:
+            return ['nd', list(o.shape), str(o.dtype)]
+        return ['nd', list(o.shape), str(o.dtype), [('nan' if (isinstance(x, float) and x != x) else x) for x in o.ravel().tolist()]]
+    if isinstance(o, (list, tuple)):
+        return [type(o).__name__, [snapshot(x, depth + 1, seen) for x in o]]
+    if isinstance(o, dict):
+        return {str(k): snapshot(v, depth + 1, seen) for k, v in o.items()}
+    mod = type(o).__module__ or ''
+    if hasattr(o, '__dict__') and mod.split('.')[0] in ('taurex', 'foo', 'verif_mixins') and depth < 4 and id(o) not in seen:
+        seen.add(id(o))
+        d = {k: snapshot(v, depth + 1, seen) for k, v in vars(o).items()}
+        d['__class__'] = type(o).__name__
+        return d
+    return '<%s>' % type(o).__name__
+
+
+def snap_diff(a, b, path='', out=None):
+    """Paths at which two snapshots differ (at most three)."""
+    if out is None:
+        out = []
+    if len(out) >= 3:
+        return out
+    if isinstance(a, dict) and isinstance(b, dict):
+        for k in sorted(set(a) | set(b)):
+            if k not in a or k not in b:
+                out.append('%s.%s only on one side' % (path, k))
+            else:
+                snap_diff(a[k], b[k], '%s.%s' % (path, k), out)
+    elif isinstance(a, list) and isinstance(b, list) and len(a) == len(b) and not (a[:1] == ['num'] or a[:1] == ['nd']):
+        for i, (x, y) in enumerate(zip(a, b)):
+            snap_diff(x, y, '%s[%d]' % (path, i), out)
+    elif a != b:
+        out.append('%s: %s != %s' % (path, str(a)[:80], str(b)[:80]))
+    return out
+
+
+def write_xsec(tmp):
+    """Two small pickle cross-sections (H2O, CH4): with them the chemistry classes know which gases are active."""
+    import pickle
+    import numpy as np
+    d = os.path.join(tmp, 'xsec')
+    os.makedirs(d, exist_ok=True)
+    wn = np.linspace(400.0, 2000.0, 33)
+    t = np.array([200.0, 1000.0, 2500.0])
+    p = np.array([1e-6, 1e-2, 1e1])
+    rs = np.random.RandomState(7)
+    for m in ('H2O', 'CH4'):
+        x = 1e-22 * (1 + rs.rand(len(p), len(t), len(wn)))
+        with open(os.path.join(d, m + '.pickle'), 'wb') as f:
+            pickle.dump(dict(name=m, wno=wn, t=t, p=p, xsecarr=x), f)
+    return d
+
+
 def prepare_files(tmp):
     """Files that path-valued keys point to.  '@P1'/'@P2' are replaced per (kind, key)."""
     import numpy as np
@@ -293,7 +470,7 @@ def prepare_files(tmp):
                                        np.linspace(1400, 600 + n, 13 + n), np.linspace(1300, 700, 13 + n)]))
         paths[('temperature', 'filename', n)] = f
         f = os.path.join(tmp, 'chem%d.dat' % n)
-        np.savetxt(f, np.column_stack([np.full(10 + n, 1e-4 * n), np.full(10 + n, 1e-5)]))
+        np.savetxt(f, np.column_stack([np.full(10 + n, 0.85), np.full(10 + n, 0.15 - 1e-4 * n), np.full(10 + n, 1e-4 * n)]))
         paths[('chemistry', 'filename', n)] = f
         d = os.path.join(tmp, 'phoenix%d' % n)
         os.makedirs(d, exist_ok=True)
@@ -305,12 +482,19 @@ def prepare_files(tmp):
         f.write(CUSTOM_TEMPERATURE)
     with open(os.path.join(tmp, 'custom_planet.py'), 'w') as f:
         f.write(CUSTOM_PLANET)
+    with open(os.path.join(tmp, 'custom_values.py'), 'w') as f:
+        f.write(CUSTOM_VALUES)
+    from . import fx_mixins
+    paths['custom_files'] = fx_mixins.write_custom_files(tmp)
+    paths['tmp'] = tmp
     return paths
 
 
 def subst(tok, kind, key, paths):
+    if tok.startswith('@C:'):       # a custom python_file written by the harness (fx_mixins.CUSTOM_BASES)
+        return paths['custom_files'][tok[3:]]
     if tok in ('@P1', '@P2'):
-        return paths.get((kind, key, int(tok[2])), os.path.join(os.path.dirname(next(iter(paths.values()))), 'missing' + tok[2]))
+        return paths.get((kind, key, int(tok[2])), os.path.join(paths['tmp'], 'missing' + tok[2]))
     return tok
 
 
@@ -326,7 +510,7 @@ BASE_SECTIONS = {
 def raw_text(raw, kind, key, paths):
     toks = [subst(t, kind, key, paths) for t in raw['toks']]
     if raw['k'] == 'list':
-        return ', '.join(toks) + (',' if len(toks) == 1 else '')
+        return ', '.join(toks) + (',' if len(toks) <= 1 else '')      # configobj: `x = ,` is the empty list, `x = 1,` one element
     return toks[0]
 
 
@@ -397,7 +581,9 @@ def run_vector(vec, paths, tmp, n):
         res['cls'] = type(obj).__name__ if obj is not None else ''
         res['bases'] = [b.__name__ for b in type(obj).__mro__] if obj is not None else []
         if vec.get('custom_file') and obj is not None:
-            res['attrs'] = {k: jsonable(v) for k, v in vars(obj).items() if k in ('_base_temp', '_random_scale', '_ring_size')}
+            res['attrs'] = {k: jsonable(v) for k, v in vars(obj).items() if k in ('_base_temp', '_random_scale', '_ring_size') or k.startswith('_v_')}
+        if vec.get('val') and obj is not None and kind != 'model' and vec.get('_direct_snap') is not None:
+            res['snapdiff'] = snap_diff(snapshot(obj), vec['_direct_snap'])
     except BaseException as ex:      # quit() inside the library raises SystemExit
         res['err'] = type(ex).__name__
         res['msg'] = str(ex)[:200]
@@ -422,7 +608,7 @@ def typed_py(tv, kind, key, paths):
     return v
 
 
-def run_direct(vec, paths, classes):
+def run_direct(vec, paths, classes, snaps=None):
     """Library construction from the specification's expected class and typed values (independent of
     the factory): tells whether the configuration is well-formed for the component."""
     if vec.get('err') != 'none' or not vec.get('cls') or vec['cls'] not in classes:
@@ -432,7 +618,9 @@ def run_direct(vec, paths, classes):
         kw['molecule_name'] = 'H2O'
     del _REC[:]
     try:
-        classes[vec['cls']](**kw)
+        obj = classes[vec['cls']](**kw)
+        if snaps is not None and vec.get('val') and vec['kind'] != 'model':
+            snaps[id(vec)] = snapshot(obj)
         return 'ok'
     except BaseException as ex:
         return type(ex).__name__
@@ -456,6 +644,9 @@ def worker(inp, outp):
     tmp = tempfile.mkdtemp(prefix='c15w_')
     try:
         paths = prepare_files(tmp)
+        from taurex.cache import OpacityCache
+        OpacityCache().clear_cache()
+        OpacityCache().set_opacity_path(write_xsec(tmp))
         # resolution under this hash seed, straight from the factory functions
         from taurex.parameter import factory as F
         resolved = []
@@ -477,13 +668,16 @@ def worker(inp, outp):
             except NotImplementedError:
                 resolved.append([kind, s, ''])
         order = {kind: [k.__name__ for k in getattr(cf, attr)] for kind, attr in KIND_ATTR.items()}
-        direct_res = [run_direct(v, paths, classes) for v in job['vectors']]
+        snaps = {}
+        direct_res = [run_direct(v, paths, classes, snaps) for v in job['vectors']]
         for k in classes.values():
             _wrap_init(k)
         results = []
         for n, v in enumerate(job['vectors']):
             if v.get('custom'):
-                v = dict(v, custom_file=os.path.join(tmp, 'custom_%s.py' % v['kind']))
+                v = dict(v, custom_file=os.path.join(tmp, v.get('custom_file_name') or 'custom_%s.py' % v['kind']))
+            if id(job['vectors'][n]) in snaps:
+                v = dict(v, _direct_snap=snaps[id(job['vectors'][n])])
             r = run_vector(v, paths, tmp, n)
             r['direct'] = direct_res[n]
             results.append(r)
